@@ -205,3 +205,62 @@ impl<T: Copy> Block for FailAt<T> {
         Ok(BlockRet::Again)
     }
 }
+
+/// Pass-through that moves at most one frame of `k` samples per call and then
+/// reports a wait on its input from that same call, even when more input is
+/// already there (the skeleton in doc/writing-a-block.md: "need more input"
+/// after producing). With `sum` it is rate-decreasing instead: it consumes a
+/// whole frame of `k` and emits its first sample only.
+pub struct Framed<T: Copy> {
+    src: ReadStream<T>,
+    dst: WriteStream<T>,
+    k: usize,
+    first_only: bool,
+}
+
+impl<T: Copy> Framed<T> {
+    pub fn new(src: ReadStream<T>, k: usize, first_only: bool) -> (Self, ReadStream<T>) {
+        let (dst, r) = rustradio::stream::new_stream();
+        (Self { src, dst, k: k.max(1), first_only }, r)
+    }
+}
+impl<T: Copy> BlockName for Framed<T> {
+    fn block_name(&self) -> &str {
+        "Framed"
+    }
+}
+impl<T: Copy> BlockEOF for Framed<T> {
+    fn eof(&mut self) -> bool {
+        self.src.eof()
+    }
+}
+impl<T: Copy> Block for Framed<T> {
+    fn work(&mut self) -> Result<BlockRet> {
+        let (i, tags) = self.src.read_buf()?;
+        let mut o = self.dst.write_buf()?;
+        if self.first_only {
+            if i.len() < self.k {
+                return Ok(BlockRet::WaitForStream(&self.src, self.k));
+            }
+            if o.is_empty() {
+                return Ok(BlockRet::WaitForStream(&self.dst, 1));
+            }
+            o.slice()[0] = i.slice()[0];
+            o.produce(1, &[]);
+            i.consume(self.k);
+            return Ok(BlockRet::WaitForStream(&self.src, self.k));
+        }
+        if i.is_empty() {
+            return Ok(BlockRet::WaitForStream(&self.src, 1));
+        }
+        if o.is_empty() {
+            return Ok(BlockRet::WaitForStream(&self.dst, 1));
+        }
+        let n = i.len().min(o.len()).min(self.k);
+        o.slice()[..n].copy_from_slice(&i.slice()[..n]);
+        let tags: Vec<_> = tags.into_iter().filter(|t| t.pos() < n).collect();
+        o.produce(n, &tags);
+        i.consume(n);
+        Ok(BlockRet::WaitForStream(&self.src, 1))
+    }
+}
